@@ -106,6 +106,13 @@ def afm_model(g, n):
     names = afm_names(g, n)
     root = g.tree(n, names=names, kinds=("mandatory", "optional", "alternative", "or", "mutex", "card", "nn"), abstract=False,
                   wide=lambda l, j: f"{l}W{j}w")
+    if rng.random() < 0.2:
+        # a one-child group: [a,b]{X} with (a,b) other than (1,1) / (0,1)
+        host = rng.choice(list(spec.spec_features(root)))
+        nm = host["name"] + "Solo"
+        if nm not in [f["name"] for f in spec.spec_features(root)]:
+            host["rels"].insert(rng.randrange(len(host["rels"]) + 1), spec.R(*rng.choice([(0, 0), (1, 2), (2, 2), (0, 3)]), [spec.F(nm)]))
+            g.count("rel_kind", "one-child-group")
     for f in spec.spec_features(root):
         if rng.random() < 0.3:
             for an in rng.sample(["cost", "size2", "kind", "w"], rng.randint(1, 2)):
@@ -126,8 +133,10 @@ def afm_model(g, n):
 def afm_norm(m):
     def nf(f):
         g = dict(f)
-        singles = [r for r in f["rels"] if len(r["children"]) == 1]
-        groups = [r for r in f["rels"] if len(r["children"]) != 1]
+        def plain(r):      # written without a cardinality: a mandatory or optional single child
+            return len(r["children"]) == 1 and (r["min"], r["max"]) in ((1, 1), (0, 1))
+        singles = [r for r in f["rels"] if plain(r)]
+        groups = [r for r in f["rels"] if not plain(r)]
         g["rels"] = [dict(min=r["min"], max=r["max"], children=[nf(c) for c in r["children"]]) for r in singles + groups]
         return g
     return dict(root=nf(m["root"]), ctcs=m["ctcs"])
